@@ -4,7 +4,7 @@
     sentinel and is tiled EXACTLY by free-list nodes and objects, the free list is strictly increasing,
     coalesced (no two chunks adjacent), sizes positive and aligned, all mark bits clear. *)
 From Coq Require Import ZArith List Permutation.
-From ChibiV Require Import Gen.C10_Consts C10.Model C10.Spec C10.Proofs C10.Sweep C10.Theorems C10.More C10.Oom C10.SizeClass C10.Examples C10.Closed C10.Image C10.ImageProofs C10.OneClass.
+From ChibiV Require Import Gen.C10_Consts C10.Model C10.Spec C10.Proofs C10.Sweep C10.Theorems C10.More C10.Oom C10.SizeClass C10.Examples C10.Closed C10.Image C10.ImageProofs C10.OneClass C10.OneClass2.
 Import ListNotations.
 Local Open Scope Z_scope.
 
@@ -246,3 +246,21 @@ Theorem single_class_grid_invariant : forall n, 0 < n -> (unit_sz | n) -> forall
   J n st -> class_op n o -> J n (step st o).
 Proof. exact step_J. Qed.
 Print Assumptions single_class_grid_invariant.
+
+(** job 2, closed form — C10's first clause for one size class, from the program's live data ALONE: when every segment
+    holds at least 8 objects of the class ([J8]: J + every segment >= 8n; true of every grown segment), every request
+    has size n, and the survivors of every slow-path collection total at most Lv bytes ([live_hist1]), then
+    total heap <= max(initial, 6 * Lv) after ANY number of allocations and collections, any mark inputs otherwise.
+    (header + tail per segment <= total/4; the growth test fires only while total < 2 Lv; a growth at most triples.) *)
+Theorem heap_bounded_single_class_free : forall n, 0 < n -> (unit_sz | n) -> forall Lv ops st,
+  J8 n st -> Forall (class_op n) ops -> live_hist1 n Lv st ops ->
+  total_size (fold_left step ops st) <= Z.max (total_size st) (6 * Lv).
+Proof. exact heap_bounded_single_class_free_lemma. Qed.
+Print Assumptions heap_bounded_single_class_free.
+
+Theorem heap_bounded_from_init : forall n, 0 < n -> (unit_sz | n) -> forall size0 max Lv ops,
+  hdr_sz < size0 -> (unit_sz | size0) -> 8 * n <= size0 ->
+  Forall (class_op n) ops -> live_hist1 n Lv (init size0 max) ops ->
+  total_size (fold_left step ops (init size0 max)) <= Z.max size0 (6 * Lv).
+Proof. exact heap_bounded_from_init_lemma. Qed.
+Print Assumptions heap_bounded_from_init.
